@@ -4,7 +4,8 @@
 //! (`Server::listen` in a thread, loopback UDP, multi-port and single-port) over a grid and compares the files:
 //!   direction {download, upload} x blksize {8, 512, 1468} x windowsize {1, 3} x timeout option 2 s x
 //!   file size {0, 1, blk-1, blk, blk+1, ws*blk, ws*blk+1, 3*ws*blk+7} x {multi-port, single-port},
-//!   a nested / Windows-style request path (stored under its base name), one transfer of more than 65535 blocks (windowsize 64),
+//!   a nested / Windows-style request path (stored under its base name), three downloads of one name whose content shrinks
+//!   (2000, 300, 0 bytes) into one directory, one transfer of more than 65535 blocks (windowsize 64),
 //!   and the refusal kinds (missing file, existing file without overwrite, read-only server): the client must report an
 //!   error and create no file.  When the runner has built the real binaries (VERIF_TFTPD / VERIF_TFTPC), four downloads and
 //!   four uploads per port mode and one refusal are repeated with `tftpd` and `tftpc` as processes (main.rs / client_main.rs).
@@ -152,6 +153,23 @@ fn main() {
                     }
                 }
                 Err(e) => fail(format!("{what}: client reports {e}")),
+            }
+        }
+        // a download into a directory that already holds a longer file of that name: the copy must equal the new content
+        {
+            cases += 1;
+            let cdir = base.join(format!("client-{mode}-again"));
+            std::fs::create_dir_all(&cdir).unwrap();
+            for (round, size) in [(1, 2000usize), (2, 300), (3, 0)] {
+                let data = content(size, 40 + round);
+                std::fs::write(srv.send_dir.join("again.bin"), &data).unwrap();
+                let what = format!("download number {round} of \"again.bin\" ({size} bytes now) into the same directory, {mode}");
+                if let Err(e) = run_client(&srv, false, "again.bin", 512, 1, &cdir) {
+                    fail(format!("{what}: client reports {e}"));
+                }
+                if let Err(e) = wait_for(&cdir.join("again.bin"), &data) {
+                    fail(format!("{what}: {e}"));
+                }
             }
         }
         // refusals: the client reports an error and creates no file
